@@ -113,4 +113,14 @@ theorem tie_get_slice_2d (seg size : Nat) (cols : Int) (hseg : 1 ≤ seg) :
   simp at this
   simp [this]
 
+/-- the last statements of `get_area_slices` (different-CRS branch): the x slice is adjusted against the source's WIDTH and
+the y slice against its HEIGHT, both with the caller's factor, then both go through `check_slice_orientation` -/
+theorem tie_get_area_slices_tail (xs ys : Gen.PySl Int) (w h : Int) (f : Option Int) :
+    Gen.get_area_slices_tail xs ys w h f =
+      (match f with
+       | some k => (Gen.check_slice_orientation (Gen.make_slice_divisible xs w k),
+                    Gen.check_slice_orientation (Gen.make_slice_divisible ys h k))
+       | none => (Gen.check_slice_orientation xs, Gen.check_slice_orientation ys)) := by
+  cases f <;> rfl
+
 end PyresampleModel.Tie
